@@ -14,7 +14,7 @@ CLAIM = ("operator*(qua,vec3/vec4), gtx rotate, mat3_cast/mat4_cast, quat_cast (
          "Decision level: on a free symbolic 3x3/4x4 matrix quat_cast (and qua(mat)) makes the strictly largest of the four candidates 4q_k^2-1 the pivot (+sqrt(candidate+1)/2) and derives every other "
          "component from it; pitch/yaw/roll/eulerAngles return exactly atan2(R21,R22) / asin(-R20) / atan2(R10,R00) of the rotation matrix of q as the same function applications, and "
          "2 atan2(x,w) / 0 exactly when their epsilon guards hold; code-free lemma chains show that these angles rebuild the rotation of q (regular branches) and q itself at exact gimbal lock. "
-         "For each of the 12 orders eulerAngleABC(extractEulerAngleABC(M)) == M for the rotation matrix M of every unit quaternion off the gimbal lock of that order, by a per-order chain of "
+         "For each of the 12 orders eulerAngleABC(extractEulerAngleABC(M)) == M for the rotation matrix M of every unit quaternion off the gimbal lock of that order AND for every rotation exactly at the lock (M = R_A(a) R_B(lock), whatever angle atan2 returns at the origin), by a per-order chain of "
          "polynomial identities of the entries (decided in the quaternion components) and scalar links over the executor's own atan2/sqrt axioms.")
 BOUNDS = ("rounding-erased semantics (every + - * / exact, sqrt algebraic); sin/cos/acos/asin/atan2 as real variables constrained only by true identities (engine/realtrig.py); "
           "all unit quaternions (w^2+x^2+y^2+z^2 = 1), all vectors, all angle tuples; float and double instantiations; XYZW and WXYZ layouts")
@@ -22,7 +22,7 @@ OUTSIDE = ("size of the rounding error (closeness claims near w~0, w~+-1, gimbal
            "qua(u,v)/rotation(u,v) on their 'opposite vectors' fallback branches only up to the orthogonality of the chosen axis; rotation(u,v) in its cos>=1-eps shortcut returns the identity "
            "(u and v then differ by < sqrt(2 eps)); quat_cast when two candidates tie for the largest (there only the rotation-matrix round trip, not the free-matrix pivot rule); "
            "eulerAngles inside the epsilon guard but off the exact singularity (the guarded value is then an approximation: only the returned formula is checked, the rebuild q only at R21 == R22 == 0); "
-           "extractEulerAngleABC at gimbal lock / t2 in {0, pi} (first atan2 evaluated at the origin: the chain assumes its hypotenuse > 0) and on matrices that are not rotations; "
+           "extractEulerAngleABC on matrices that are not rotations (at EXACT gimbal lock - middle angle 0 / pi resp. +-pi/2 - the rebuild is decided by the lock[..] obligations for an arbitrary value of the atan2 evaluated at the origin; the open neighbourhoods of the lock are covered by the regular chain, whose hypothesis is only that the first hypotenuse is > 0); "
            "memory order of the components (C16)")
 ASSUMPTIONS = ['layout differential: IEEE addition and multiplication are commutative (operands are sorted before the two builds are compared)',
                'float/double literals that are the correctly rounded value of k*pi/4 denote k*pi/4 in the rounding-erased semantics (C11 checks the literals themselves)',
@@ -735,6 +735,86 @@ def job_extract(t, orders, lay='xyzw'):
                     P('entry[r%dc%d]' % (r, c), Nn == Mn, [Nn == Nsn, r1 * r1 * Nsn == Ztn, Ztn == Evn + r1 * Odn, Evn == R2_ * Mn, Odn == 0, r1 * r1 == R2_, reg])
     return run
 
+def subterm_ids(t):
+    seen = set(); st = [t]
+    while st:
+        x = st.pop(); k = x.get_id()
+        if k in seen: continue
+        seen.add(k); st.extend(x.children())
+    return seen
+def _rax(ax, c, s_):
+    o, z = z3.RealVal(1), z3.RealVal(0)
+    return {'X': [[o, z, z], [z, c, -s_], [z, s_, c]], 'Y': [[c, z, s_], [z, o, z], [-s_, z, c]], 'Z': [[c, -s_, z], [s_, c, z], [z, z, o]]}[ax]
+def job_extract_lock(t, orders, lay='xyzw'):
+    """extractEulerAngleABC AT exact gimbal lock: M = R_A(a) R_B(lock) R_C(c) with the middle angle 0 or pi (orders ABA) resp. +-pi/2 (orders ABC) and symbolic unit pairs
+    (cos a, sin a), (cos c, sin c).  The first atan2 of the extraction is then evaluated at the origin, where the executor's model leaves its value an ARBITRARY angle
+    (cos^2 + sin^2 = 1 only): the obligation is that for whatever angle the library returns there, eulerAngleABC of the three extracted angles rebuilds M entry by entry
+    (the code compensates through sin/cos of the first angle in the arguments of the third atan2)."""
+    Un = UNITS[lay]; tol = 2e-3 if t == 'f32' else 1e-6; w = 32 if t == 'f32' else 64
+    def run(S):
+        for n in orders:
+            fn = 'xea%s_%s' % (n, t)
+            locks = [(1, 0, 't2=0'), (-1, 0, 't2=pi')] if n[0] == n[2] else [(0, 1, 't2=+pi/2'), (0, -1, 't2=-pi/2')]
+            for c2, s2, tag in locks:
+                name = '%s.%s.lock[%s]' % (Un.name, fn, tag)
+                cA, sA = z3.Reals('cA sA'); cC, sC = z3.RealVal(1), z3.RealVal(0)       # WLOG c = 0: at lock R_A(a) R_B(lock) R_C(c) = R_A(a +- c) R_B(lock)
+                Mx = matmul(matmul(_rax(n[0], cA, sA), _rax(n[1], z3.RealVal(c2), z3.RealVal(s2))), _rax(n[2], cC, sC)); Mx = [[z3.simplify(x) for x in row] for row in Mx]
+                try: res = sym_call(Un, fn, ins=[[Mx[r][c] for c in range(3) for r in range(3)]], mode='real', ex=mkex(Un, 'real', 16))
+                except Unsupported as e:
+                    S.rec(name=name, kind='encode', result='unsupported', status='not-encoded', note=str(e)[:300], mandatory=True, functions=[fn]); S.inconclusive.append(name + ' [not encoded]'); continue
+                G = M(res.outs[0], 4, 4); ex = res.ex; T = Trig(ex); cj = conjuncts(res.axioms)
+                def native_replay(m, n=n, fn=fn, c2=c2, s2=s2):
+                    v = [float(z3val_to_fraction(m.eval(x, model_completion=True))) for x in (cA, sA)] + [1.0, 0.0]
+                    na = math.hypot(v[0], v[1]) or 1.0; v = [v[0] / na, v[1] / na, 1.0, 0.0]
+                    def rn(ax, c_, s__): return [[float(z3val_to_fraction(z3.simplify(x))) for x in row] for row in _rax(ax, z3.RealVal(repr(c_)), z3.RealVal(repr(s__)))]
+                    A_, B_, C_ = rn(n[0], v[0], v[1]), rn(n[1], float(c2), float(s2)), rn(n[2], v[2], v[3])
+                    mm = lambda X, Y: [[sum(X[r][j] * Y[j][c] for j in range(3)) for c in range(3)] for r in range(3)]
+                    Mn = mm(mm(A_, B_), C_); bits = [[float_to_bits(Mn[r][c], w) for c in range(3) for r in range(3)]]
+                    nat = Un.call_native(fn, bits); info = {'unit': Un.name, 'fn': fn, 'inputs': [[hex(b) for b in bits[0]]], 'cos_sin_a': v[:2], 'native_out': [[hex(b) for b in r_] for r_ in nat], 'property': 'C04', 'obligation': name}
+                    bad = False
+                    for r in range(3):
+                        for c in range(3):
+                            g = bits_to_float(nat[0][c * 4 + r], w); want = bits_to_float(bits[0][c * 3 + r], w)
+                            if g != g or abs(g - want) > tol: bad = True
+                    return ('reproduced' if bad else 'not-reproduced'), info
+                meta = dict(kind='spec', functions=['w_' + fn], bounds='M = R_%s(a) R_%s(%s) for every unit pair (cos a, sin a) - every rotation at this gimbal lock has that form (R_A(a) R_B(lock) R_C(c) = R_A(a +- c) R_B(lock)); atan2 at the origin = arbitrary angle; rounding-erased' % (n[0], n[1], tag[3:]))
+                # small chain: every link is a solver query whose hypotheses are literal conjuncts of the executor's axioms for THIS run (non-implication ones) plus links already proved
+                circles = [cA * cA + sA * sA == 1] + [c_ for c_ in cj if z3.is_eq(c_) and z3.is_rational_value(c_.arg(1)) and c_.arg(1).numerator_as_long() == 1 and c_.arg(1).denominator_as_long() == 1 and ('sin!' in str(c_.arg(0)) and 'cos!' in str(c_.arg(0)))]
+                facts = []; subst = []
+                def basic(vs):      # non-implication axiom conjuncts mentioning one of the variables
+                    ids = {v.get_id() for v in vs}; out = []
+                    for c_ in cj:
+                        if z3.is_implies(c_): continue
+                        if ids & set(subterm_ids(c_)): out.append(c_)
+                    return out
+                def link(label, goal, hyps):
+                    S.prove('%s.chain.%s' % (name, label), goal, list(hyps), timeout=S.cap(20, 60), solver='nra', replay=lambda m: ('no-replay', {'note': 'scalar link of the chain'}), **meta)
+                    facts.append(goal)
+                for k_, (sqa, sqv) in enumerate(ex.__dict__.get('sqrt_log', [])):
+                    a0 = z3.simplify(z3.substitute(sqa, *subst)) if subst else z3.simplify(sqa)
+                    S.prove('%s.domain[sqrt %d]' % (name, k_), sqa >= 0, circles + facts, timeout=S.cap(20, 60), solver='nra', replay=native_replay, **dict(meta, kind='domain'))
+                    if z3.is_rational_value(a0) and a0.numerator_as_long() == 0:
+                        link('sqrt%d==0' % k_, sqv == 0, basic([sqv])); subst.append((sqv, z3.RealVal(0)))
+                at = [(v, a) for k, (v, a) in ex.trig.items() if k[0] == 'atan2']; free = 0
+                for k_, (v, (y_, x_)) in enumerate(at):
+                    r_ = ex.trig_hyp[v.sexpr()]; cv, sv = T.cos(v), T.sin(v); ys, xs = z3.simplify(z3.substitute(y_, *subst)), z3.simplify(z3.substitute(x_, *subst))
+                    if all(z3.is_rational_value(u) and u.numerator_as_long() == 0 for u in (ys, xs)): free += 1; continue        # atan2 at the origin: arbitrary angle, nothing is assumed
+                    hb = basic([r_, cv, sv]) + facts + circles
+                    link('circle%d' % k_, xs * xs + ys * ys == 1, circles); link('x%d' % k_, x_ == xs, facts + circles); link('y%d' % k_, y_ == ys, facts + circles)
+                    link('hyp%d^2==1' % k_, r_ * r_ == 1, basic([r_]) + [xs * xs + ys * ys == 1, x_ == xs, y_ == ys]); link('hyp%d==1' % k_, r_ == 1, [r_ * r_ == 1, r_ >= 0] if any(c_.eq(r_ >= 0) for c_ in cj) else hb)
+                    link('cos%d' % k_, cv == x_, basic([r_, cv, sv]) + [r_ == 1]); link('sin%d' % k_, sv == y_, basic([r_, cv, sv]) + [r_ == 1])
+                    subst += [(cv, xs), (sv, ys)]
+                    link('cos%d.value' % k_, cv == xs, facts + circles); link('sin%d.value' % k_, sv == ys, facts + circles)
+                S.rec(name=name + '.origin', kind='structure', functions=[fn], bounds=meta['bounds'], solver='term inspection', result='unsat', time_s=0.0, status='discharged', mandatory=True, note='%d of the %d atan2 calls are evaluated at the origin (value unconstrained)' % (free, len(at)))
+                eqs = [a_ == b_ for a_, b_ in subst]
+                # parity facts of the executor's table (sin(-t) == -sin t, cos(-t) == cos t): literal equality conjuncts between table variables
+                def tabvar(x): return (z3.is_const(x) and x.decl().name().startswith(('sin!', 'cos!'))) or (z3.is_app(x) and x.num_args() == 1 and x.decl().kind() == z3.Z3_OP_UMINUS and tabvar(x.arg(0))) or (z3.is_app(x) and x.decl().kind() == z3.Z3_OP_MUL and x.num_args() == 2 and z3.is_rational_value(x.arg(0)) and tabvar(x.arg(1)))
+                eqs += [c_ for c_ in cj if z3.is_eq(c_) and tabvar(c_.arg(0)) and tabvar(c_.arg(1))]
+                for r in range(3):
+                    for c in range(3):
+                        S.prove('%s.rebuild[r%dc%d]' % (name, r, c), G[r][c] == Mx[r][c], eqs + circles, timeout=S.cap(20, 60), solver='nra', replay=native_replay, **meta)
+    return run
+
 def fp_canon(t, memo=None):
     """sort the operands of IEEE add/mul (commutative, single NaN in SMT-LIB FP) so that clang's operand-order choices do not matter"""
     memo = {} if memo is None else memo
@@ -791,4 +871,5 @@ def jobs(tier):
         for k in range(0, len(names), 7): J.append(('euler_%s_%d' % (t, k // 7), job_euler(t, names[k:k + 7])))
         J.append(('layout_' + t, job_layout(t, ['qv', 'm3', 'rt', 'mm', 'inv', 'aa', 'uv', 'rot', 'qeul', 'eulq'])))
         for k in range(0, 12, 3): J.append(('extract_%s_%d' % (t, k // 3), job_extract(t, EULER3[k:k + 3])))
+        for k in range(0, 12, 2): J.append(('extractlock_%s_%d' % (t, k // 2), job_extract_lock(t, EULER3[k:k + 2])))
     return J
